@@ -396,6 +396,6 @@ func r5pure(c *core.Ctx) {
 		return
 	}
 	entries := []*ssa.Function{mustFunc(c, pTglib, "RanUeContext.DeriveRESstarAndSetKey"), mustFunc(c, pTglib, "RanUeContext.DerivateKamf"),
-		mustFunc(c, pTglib, "RanUeContext.DerivateAlgKey"), mustFunc(c, pUeau, "GetKDFValue"), mustFunc(c, pUeau, "KDFLen")}
+		mustFunc(c, pTglib, "RanUeContext.DerivateAlgKey"), mustFunc(c, pUeau, "GetKDFValue"), mustFunc(c, pUeau, "KDFLen"), mustFunc(c, pTglib, "GetAuthSubscription")}
 	pureState(c, "R5.pure", "5G-AKA key derivation (DeriveRESstarAndSetKey, DerivateKamf, DerivateAlgKey, GetKDFValue)", entries, nil)
 }
